@@ -110,17 +110,26 @@ def conc_scenarios(tier, base):
         roots = list(range(1, 9))
         rnd.shuffle(roots)
         k = rnd.randint(2, 5)
-        out.append({"sc": base + i, "chain": chain, "now": now, "filler": rnd.choice([20000, 150000, 300000]),
-                    "pre": roots[k:k + rnd.randint(0, 2)], "events": roots[:k],
-                    "lookups": roots[6:8] if rnd.random() < 0.5 else [], "rounds": rnd.choice([1, 1, 2])})
+        sc = {"sc": base + i, "chain": chain, "now": now, "filler": rnd.choice([20000, 150000, 300000]),
+              "pre": roots[k:k + rnd.randint(0, 2)], "events": roots[:k],
+              "lookups": roots[6:8] if rnd.random() < 0.5 else [], "rounds": rnd.choice([1, 1, 2])}
+        if i % 2 == 1:
+            # the header provider wired as in main.go: the real "first" strategy over the scripted node(s);
+            # misses of different roots (and requests for the head header) overlap at the node
+            sc.update({"via": "first", "nodes": rnd.choice([1, 1, 2]), "headreqs": rnd.choice([0, 1, 2]),
+                       "latency_us": rnd.choice([300, 1000, 3000]), "filler": rnd.choice([0, 2000]),
+                       "lookups": roots[k:][:rnd.randint(2, 4)], "pre": [], "rounds": rnd.choice([0, 1])})
+        out.append(sc)
     return out
 
 
 def conc_sig(s):
-    return {"overlap": "clean||events||lookups"}
+    return {"overlap": "misses||head requests via the first header strategy" if s.get("via") == "first" else "clean||events||lookups"}
 
 
 def conc_nontrivial(s, rows):
+    if s.get("via") == "first":
+        return len(s["lookups"]) >= 2
     return len(s["events"]) >= 2 and s["rounds"] >= 1
 
 
